@@ -453,6 +453,13 @@ func (fv *FV) callStatic(st *State, callee *types.Func, recv *Term, recvExpr ast
 	}
 	// arguments
 	sig := callee.Type().(*types.Signature)
+	if tv, ok := fv.info.Types[c.Fun]; ok {
+		// the instantiated signature of a generic callee (stree.New called with T := KV[K, V]): parameter types, and
+		// with them the element sorts of variadic and slice arguments, are the instantiated ones
+		if s2, ok := tv.Type.(*types.Signature); ok && s2.Params().Len() == sig.Params().Len() && s2.Variadic() == sig.Variadic() {
+			sig = s2
+		}
+	}
 	osig := callee.Origin().Type().(*types.Signature)
 	var args []Term
 	np := sig.Params().Len()
